@@ -102,11 +102,21 @@ const TARGETS: &[Target] = &[
     Target { name: "maybe_replace", file: "src/cut_str.rs", impl_trait: None, impl_self: None,
              func: "maybe_replace_delimiter", calls: &[("replace_all", "rx_replace_all")], deps: &[],
              imports: "Model.Scan Model.Regex Model.Opt Model.CutStr Tie.RsRegex", ret_muts: false, fuel: "" },
+    Target { name: "cut_str", file: "src/cut_str.rs", impl_trait: None, impl_self: None, func: "cut_str",
+             calls: &[("trim", "gen_trim"), ("trim_regex", "gen_trim_regex"), ("compress_delimiter", "gen_compress_delimiter"),
+                      ("compress_delimiter_with_regex", "gen_compress_regex"), ("fill_with_fields_locations", "gen_fill_fields"),
+                      ("fill_with_fields_locations_greedy", "model_fill_greedy"), ("fill_with_fields_locations_using_regex", "gen_fill_regex"),
+                      ("complement", "gen_ubl_complement"), ("unpack", "gen_ubl_unpack"), ("try_into_range", "gen_ub_try_into_range"),
+                      ("maybe_replace_delimiter", "gen_maybe_replace")],
+             deps: &["trim", "trim_regex", "compress_delimiter", "compress_regex", "fill_fields", "fill_regex", "ubl_complement", "ubl_unpack", "ub_try_into_range", "maybe_replace"],
+             imports: "Model.Scan Model.Regex Model.Opt Model.Utf8 Model.Json Model.CutStr Tie.RsOpt Tie.RsStr Tie.RsList Tie.RsScan Tie.RsRegex Tie.RsCut", ret_muts: false, fuel: "" },
     Target { name: "fast_try_from", file: "src/fast_lane.rs", impl_trait: Some("TryFrom"), impl_self: Some("FastOpt"),
              func: "try_from", calls: &[], deps: &[], imports: "Model.Scan Model.Regex Model.Opt Tie.RsOpt", ret_muts: false, fuel: "" },
     Target { name: "stream_try_from", file: "src/stream.rs", impl_trait: Some("TryFrom"), impl_self: Some("StreamOpt"),
              func: "try_from", calls: &[("ForwardBounds::try_from", "model_forward_try_from")], deps: &[], imports: "Model.Scan Model.Regex Model.Opt Model.Stream Tie.RsOpt", ret_muts: false, fuel: "" },
 ];
+
+const WRITE_MAYBE_AS_JSON: &str = "($writer:ident,$to_print:ident,$as_json:expr)=>{{if$as_json{$writer.write_all(serde_json::to_string(std::str::from_utf8(&$to_print)?)?.as_bytes())?;}else{$writer.write_all(&$to_print)?;}}};";
 
 #[derive(Clone, PartialEq, Debug)]
 enum Ty { I32, Usize, Bool, Side, UB, UBL, Regex, Trim, Range, Opt(Box<Ty>), List(Box<Ty>), OptRec, FastRec, BType, Bytes, Byte, Str, Pair(Box<Ty>, Box<Ty>), Other }
@@ -135,10 +145,29 @@ struct Cx {
     fuel: String,
     /// what `return e` means here: the function's result, a loop's `Break`, a closure's value
     retk_stack: Vec<String>,
+    /// when set: (name prefix, address range of the function's top-level statements); what follows each
+    /// top-level statement becomes a definition of its own (a stage), applied to the variables it uses
+    stage_top: Option<(String, usize, usize, usize)>,
+    stages: Vec<String>,
 }
 
 const KEYWORDS: &[&str] = &["end", "match", "with", "fun", "let", "in", "if", "then", "else", "return", "as", "at", "fix",
     "forall", "exists", "Type", "Set", "Prop", "where", "for", "using", "cofix", "struct", "mod", "left", "right", "by", "do", "Some", "None"];
+
+/// free functions of src/cut_str.rs that fill a scratch vector handed in by `&mut`: the position of that argument
+fn coq_ty(t: &Ty) -> Option<String> {
+    Some(match t {
+        Ty::I32 | Ty::Usize => "Z".into(), Ty::Bool => "bool".into(), Ty::Side => "side".into(), Ty::UB => "ubound".into(), Ty::UBL => "ublist".into(),
+        Ty::Regex => "(rx * bool)%type".into(), Ty::Trim => "trimk".into(), Ty::Range => "(Z * Z)%type".into(),
+        Ty::Opt(x) => format!("(option {})", coq_ty(x)?), Ty::List(x) => format!("(list {})", coq_ty(x)?),
+        Ty::OptRec => "opt".into(), Ty::FastRec => "gfopt".into(), Ty::BType => "btype".into(), Ty::Bytes | Ty::Str => "bytes".into(), Ty::Byte => "byte".into(),
+        Ty::Pair(a, b) => format!("({} * {})%type", coq_ty(a)?, coq_ty(b)?), Ty::Other => return None,
+    })
+}
+
+fn mut_vec_arg(f: &str) -> Option<usize> {
+    match f { "compress_delimiter" => Some(2), "fill_with_fields_locations" | "fill_with_fields_locations_greedy" | "fill_with_fields_locations_using_regex" => Some(0), _ => None }
+}
 
 fn flatten_tokens(t: proc_macro2::TokenTree) -> Vec<String> {
     match t {
@@ -209,7 +238,7 @@ fn field(recv: &Ty, name: &str) -> Option<(&'static str, Ty)> {
         return Some(match name {
             "delimiter" => ("o_delim", Ty::Bytes),
             "eol" => ("o_eol", Ty::Byte),
-            "bounds" => ("o_bounds", Ty::Other),
+            "bounds" => ("o_bounds", Ty::UBL),
             "bounds_type" => ("o_btype", Ty::BType),
             "only_delimited" => ("o_only_delimited", Ty::Bool),
             "greedy_delimiter" => ("o_greedy", Ty::Bool),
@@ -314,6 +343,34 @@ impl Cx {
         let toks: Vec<String> = quote::ToTokens::to_token_stream(e).into_iter().flat_map(flatten_tokens).collect();
         toks.windows(2).any(|w| self.muts.contains(&w[0]) && (w[1] == "=" || w[1] == "+~" || w[1] == "-~"))
     }
+    /// turn the translation of `rest` (the statements after a top-level one) into a stage definition
+    fn stage(&mut self, rest: &[Stmt], rest_s: String, env_len: usize) -> String {
+        let (prefix, start, end, total) = match &self.stage_top { Some(x) => x.clone(), None => return rest_s };
+        let r = rest.as_ptr_range();
+        if rest.is_empty() || (r.end as usize) != end || (r.start as usize) < start { return rest_s; }
+        let idx = total - rest.len();
+        let mut names: Vec<String> = vec![];
+        let mut binders: Vec<String> = vec![];
+        for i in 0..env_len.min(self.env.len()) {
+            let n = &self.env[i].0;
+            let c = self.renames.iter().find(|(ri, rn, _)| *ri == i && rn == n).map(|(_, _, c)| c.clone()).unwrap_or_else(|| ident(n));
+            if names.contains(&c) { continue; }
+            // does the name occur in the text as a whole word?
+            let bytes = rest_s.as_bytes();
+            let mut found = false; let mut from = 0;
+            while let Some(pos) = rest_s[from..].find(&c) {
+                let a = from + pos; let b = a + c.len();
+                let okl = a == 0 || !(bytes[a - 1].is_ascii_alphanumeric() || bytes[a - 1] == b'_' || bytes[a - 1] == b'\'');
+                let okr = b >= bytes.len() || !(bytes[b].is_ascii_alphanumeric() || bytes[b] == b'_' || bytes[b] == b'\'');
+                if okl && okr { found = true; break; }
+                from = a + 1;
+            }
+            if found { names.push(c.clone()); binders.push(match coq_ty(&self.env[i].1) { Some(t) => format!("({} : {})", c, t), None => c }); }
+        }
+        let name = format!("{}_s{}", prefix, idx);
+        self.stages.push(format!("Definition {} {} :=\n  {}.\n", name, binders.join(" "), rest_s));
+        format!("({} {})", name, names.join(" "))
+    }
     fn lookup(&self, v: &str) -> Option<Ty> {
         self.env.iter().rev().find(|(n, _)| n == v).map(|(_, t)| t.clone())
     }
@@ -321,7 +378,7 @@ impl Cx {
     // ---------------------------------------------------------------- types (a light inference)
     fn ty(&self, e: &Expr) -> Ty {
         match e {
-            Expr::Lit(l) => match &l.lit { Lit::Bool(_) => Ty::Bool, Lit::Int(i) => match i.suffix() { "usize" => Ty::Usize, _ => Ty::I32 }, Lit::Str(_) => Ty::Str, _ => Ty::Other },
+            Expr::Lit(l) => match &l.lit { Lit::ByteStr(_) => Ty::Bytes, Lit::Bool(_) => Ty::Bool, Lit::Int(i) => match i.suffix() { "usize" => Ty::Usize, _ => Ty::I32 }, Lit::Str(_) => Ty::Str, _ => Ty::Other },
             Expr::Index(ix) if matches!(&*ix.index, Expr::Range(_)) => self.ty(&ix.expr),
             Expr::Index(ix) => match self.ty(&ix.expr) { Ty::List(t) => *t, Ty::Bytes => Ty::Byte, _ => Ty::Other },
             Expr::Path(p) if path_str(&p.path).starts_with("BoundsType::") => Ty::BType,
@@ -338,7 +395,7 @@ impl Cx {
             Expr::Try(t) => match self.ty(&t.expr) { Ty::Opt(t) => *t, _ => Ty::Other },
             Expr::MethodCall(m) => match m.method.to_string().as_str() {
                 "is_positive" | "is_negative" | "is_some" | "is_none" => Ty::Bool,
-                "clone" | "into_iter" | "iter" | "as_bytes" | "as_ref" | "to_owned" | "as_deref" | "cloned" | "rev" => self.ty(&m.receiver),
+                "clone" | "into_iter" | "iter" | "as_bytes" | "as_ref" | "to_owned" | "as_deref" | "cloned" | "rev" | "as_slice" => self.ty(&m.receiver),
                 "enumerate" => Ty::List(Box::new(Ty::Pair(Box::new(Ty::Usize), Box::new(match self.ty(&m.receiver) { Ty::List(t) => *t, _ => Ty::Other })))),
                 "len" => Ty::Usize,
                 "split_once" => Ty::Opt(Box::new(Ty::Pair(Box::new(Ty::Str), Box::new(Ty::Str)))),
@@ -385,6 +442,7 @@ impl Cx {
                 Lit::Int(i) => format!("{}", i.base10_digits()),
                 Lit::Bool(b) => format!("{}", b.value),
                 Lit::Char(c) if c.value().is_ascii() => format!("{}%N", c.value() as u32),
+                Lit::ByteStr(t) => format!("[{}]", t.value().iter().map(|b| format!("{}%N", b)).collect::<Vec<_>>().join("; ")),
                 Lit::Str(t) if t.value().is_ascii() => format!("[{}]", t.value().bytes().map(|b| format!("{}%N", b)).collect::<Vec<_>>().join("; ")),
                 _ => return Err("literal kind".into()),
             },
@@ -443,7 +501,7 @@ impl Cx {
                     return self.pure(&m.receiver);
                 }
                 if name == "into" && matches!(self.ty(&m.receiver), Ty::Str | Ty::Byte) { return self.pure(&m.receiver); }
-                if ["expect", "unwrap", "collect", "map", "try_into", "into", "for_each", "any", "flat_map", "try_for_each", "write_all", "push", "clear", "extend", "next"].contains(&name.as_str()) { return Ok(None); }
+                if ["expect", "unwrap", "collect", "map", "try_into", "into", "for_each", "any", "flat_map", "try_for_each", "write_all", "push", "clear", "extend", "next", "pop", "drain"].contains(&name.as_str()) { return Ok(None); }
                 let recv = match self.pure(&m.receiver)? { Some(x) => x, None => return Ok(None) };
                 let mut args = vec![];
                 for a in &m.args { match self.pure(a)? { Some(x) => args.push(x), None => return Ok(None) } }
@@ -542,6 +600,9 @@ impl Cx {
                     let mut xs = vec![];
                     for a in &elems { match self.pure(a)? { Some(x) => xs.push(x), None => return Ok(None) } }
                     format!("[{}]", xs.join("; "))
+                } else if name == "cfg" {
+                    // cfg!(feature = ".."): the default build, which is the one under verification, has its features on
+                    "true".to_string()
                 } else if name == "matches" {
                     let (e, pt, guard) = m.mac.parse_body_with(|input: parse::ParseStream| {
                         let e: Expr = input.parse()?;
@@ -641,6 +702,17 @@ impl Cx {
                 let aty = match (&aty, &hint) { (Ty::Other, Ty::Opt(t)) => (**t).clone(), _ => aty };
                 let (s, _) = self.pat(&ts.elems[0], aty)?;
                 (format!("({} {})", g, s), false)
+            }
+            Pat::Struct(ps) if path_str(&ps.path) == "UserBounds" => {
+                let mut parts: HashMap<String, String> = HashMap::new();
+                for f in &ps.fields {
+                    let n = match &f.member { Member::Named(n) => n.to_string(), _ => return Err("UserBounds pattern".into()) };
+                    let h = match n.as_str() { "l" | "r" => Ty::Side, "is_last" => Ty::Bool, _ => Ty::Other };
+                    let (sp, _) = self.pat(&f.pat, h)?;
+                    parts.insert(n, sp);
+                }
+                let g = |k: &str| parts.get(k).cloned().unwrap_or("_".to_string());
+                (format!("(mkB {} {} {} {})", g("l"), g("r"), g("is_last"), g("fallback_oob")), parts.values().all(|v| v == "_" || !v.contains(' ')))
             }
             Pat::Path(pp) => { let c = path_str(&pp.path); (unit_ctor(&c).ok_or(format!("pattern `{}`", c))?.to_string(), false) }
             Pat::Lit(l) => match &l.lit {
@@ -786,6 +858,21 @@ impl Cx {
                 let c = self.coqname(&name);
                 let v = self.fresh("v");
                 self.tr(&m.args[0], &format!("(fun {} => (let {} := ({} ++ {}) in ({} tt)))", v, c, c, v, k))
+            }
+            Expr::Field(f) => {
+                let x = self.fresh("t");
+                let g = match &f.member { Member::Named(n) => field(&self.ty(&f.base), &n.to_string()).ok_or(format!("field `{}`", n))?.0, _ => return Err("tuple field".into()) };
+                self.tr(&f.base, &format!("(fun {} => ({} ({} {})))", x, k, g, x))
+            }
+            Expr::MethodCall(m) if (m.method == "pop" && m.args.is_empty() || m.method == "drain" && m.args.len() == 1) && matches!(&*m.receiver, Expr::Path(p) if self.muts.contains(&path_str(&p.path))) => {
+                let name = match &*m.receiver { Expr::Path(p) => path_str(&p.path), _ => unreachable!() };
+                let c = self.coqname(&name);
+                if m.method == "pop" { return Ok(format!("(let {} := removelast {} in ({} tt))", c, c, k)); }
+                // v.drain(..1): the first element goes (a panic on an empty vector)
+                let ok = matches!(&m.args[0], Expr::Range(r) if r.start.is_none() && matches!(r.limits, RangeLimits::HalfOpen(_)) && matches!(r.end.as_deref(), Some(Expr::Lit(ExprLit { lit: Lit::Int(i), .. })) if i.base10_digits() == "1"));
+                if !ok { return Err("drain of something other than ..1".into()); }
+                let v = self.fresh("v");
+                Ok(format!("(bind (vec_drain1 {}) (fun {} => (let {} := {} in ({} tt))))", c, v, c, v, k))
             }
             Expr::MethodCall(m) if m.method == "next" && m.args.is_empty() && matches!(&*m.receiver, Expr::Path(p) if self.muts.contains(&path_str(&p.path)) && matches!(self.lookup(&path_str(&p.path)), Some(Ty::List(_)))) => {
                 // an iterator held in a `let mut`: its remaining elements; next() takes the first
@@ -975,6 +1062,15 @@ impl Cx {
                         return Ok(acc);
                     }
                 }
+                if let (Some(g), Some(mi)) = (self.calls.get(&f).cloned(), mut_vec_arg(&f)) {
+                    // f(.., buf, ..) with buf: &mut Vec: the callee returns (value, final buf)
+                    let mname = match c.args.get(mi) { Some(Expr::Path(p)) if self.muts.contains(&path_str(&p.path)) => self.coqname(&path_str(&p.path)), _ => return Err(format!("`{}` called with something other than a scratch vector of this function", f)) };
+                    let names: Vec<String> = c.args.iter().map(|_| self.fresh("a")).collect();
+                    let (rv, mv) = (self.fresh("r"), self.fresh("m"));
+                    let mut acc = format!("(bind ({} {}) (fun '({}, {}) => (let {} := {} in ({} {}))))", g, names.join(" "), rv, mv, mname, mv, k, rv);
+                    for (a, n) in c.args.iter().zip(names.iter()).rev() { acc = self.tr(a, &format!("(fun {} => {})", n, acc))?; }
+                    return Ok(acc);
+                }
                 let names: Vec<String> = c.args.iter().map(|_| self.fresh("a")).collect();
                 let head = if let Some(g) = self.calls.get(&f).cloned() { format!("(bind ({} {}) {})", g, names.join(" "), k) }
                            else if f == "Err" { format!("({} None)", k) }
@@ -993,7 +1089,7 @@ impl Cx {
                 let x = self.fresh("t");
                 self.tr(inner, &format!("(fun {} => (bind (usize_to_i32 {}) {}))", x, x, k))
             }
-            Expr::MethodCall(m) if m.args.is_empty() && ["clone", "into_iter", "iter", "as_bytes", "as_ref", "to_owned", "as_deref", "cloned"].contains(&m.method.to_string().as_str()) => self.tr(&m.receiver, k),
+            Expr::MethodCall(m) if m.args.is_empty() && ["clone", "into_iter", "iter", "as_bytes", "as_ref", "to_owned", "as_deref", "cloned", "as_slice"].contains(&m.method.to_string().as_str()) => self.tr(&m.receiver, k),
             Expr::MethodCall(m) if m.args.len() == 1 && (m.method == "starts_with" || m.method == "ends_with") => {
                 let arg = self.pure(&m.args[0])?.ok_or("starts_with/ends_with with an effectful argument")?;
                 let x = self.fresh("t");
@@ -1135,6 +1231,18 @@ impl Cx {
     fn stmts(&mut self, ss: &[Stmt], k: &str) -> R<String> {
         let (first, rest) = match ss.split_first() { None => return Ok(format!("({} tt)", k)), Some(x) => x };
         match first {
+            Stmt::Local(l) if l.init.is_none() => {
+                // `let x: T;` assigned later: a mutable variable with a value nobody reads
+                let (name, ty) = match &l.pat { Pat::Type(pt) => match &*pt.pat { Pat::Ident(pi) => (pi.ident.to_string(), ty_of_type(&pt.ty)), _ => return Err("let without a value".into()) }, _ => return Err("let without a value or a type".into()) };
+                let dflt = match ty.0.as_str() { "bytes" => "([] : bytes)", "ublist" => "(mkL [] SCont)", _ => return Err(format!("let without a value, of type {}", ty.0)) };
+                if self.lookup(&name).is_some() { return Err(format!("`{}` declared twice", name)); }
+                self.muts.push(name.clone());
+                self.env.push((name.clone(), ty.1));
+                let el = self.env.len();
+                let rest_s = self.stmts(rest, k)?;
+                let rest_s = self.stage(rest, rest_s, el);
+                Ok(format!("(let {} := {} in {})", ident(&name), dflt, rest_s))
+            }
             Stmt::Local(l) => {
                 let init = l.init.as_ref().ok_or("let without a value")?;
                 if init.diverge.is_some() { return Err("let-else".into()); }
@@ -1151,7 +1259,9 @@ impl Cx {
                 self.rebind_ok = false;
                 let (p, irrefutable) = pr?;
                 if !irrefutable { return Err("refutable let pattern".into()); }
+                let el = self.env.len();
                 let rest_s = self.stmts(rest, k)?;
+                let rest_s = self.stage(rest, rest_s, el);
                 // the initialiser knows neither this binding nor the `let mut`s declared after it
                 self.muts.truncate(mm0);
                 // the initialiser sees the environment from before the binding (shadowing)
@@ -1167,10 +1277,33 @@ impl Cx {
                     return self.tr(e, &format!("(fun _ => ({} tt))", k));
                 }
                 let mm0 = self.muts.len();
+                let el = self.env.len();
                 let rest_s = self.stmts(rest, k)?;
+                let rest_s = self.stage(rest, rest_s, el);
+                self.env.truncate(el);
                 self.muts.truncate(mm0);
                 let unit = matches!(e, Expr::If(ExprIf { else_branch: None, .. }));
                 self.tr(e, &format!("(fun _{} => {})", if unit { " : unit" } else { "" }, rest_s))
+            }
+            Stmt::Macro(m) if path_str(&m.mac.path) == "write_maybe_as_json" => {
+                // the macro of src/cut_str.rs (its definition is compared with the one this expansion was written for):
+                //   if $as_json { $w.write_all(serde_json::to_string(std::str::from_utf8(&$t)?)?.as_bytes())? } else { $w.write_all(&$t)? }
+                let parser = punctuated::Punctuated::<Expr, Token![,]>::parse_terminated;
+                let args = m.mac.parse_body_with(parser).map_err(|e| format!("write_maybe_as_json! arguments: {}", e))?;
+                if args.len() != 3 { return Err("write_maybe_as_json! arity".into()); }
+                let w = match &args[0] { Expr::Path(p) => path_str(&p.path), _ => return Err("write_maybe_as_json! writer".into()) };
+                if !self.writers.contains(&w) { return Err("write_maybe_as_json! on something that is not the writer".into()); }
+                let t = self.pure(&args[1])?.ok_or("write_maybe_as_json! text")?;
+                let c = self.pure(&args[2])?.ok_or("write_maybe_as_json! flag")?;
+                let mm0 = self.muts.len();
+                let el = self.env.len();
+                let rest_s = self.stmts(rest, k)?;
+                let rest_s = self.stage(rest, rest_s, el);
+                self.env.truncate(el);
+                self.muts.truncate(mm0);
+                let wn = ident(&w);
+                let rk = self.retk();
+                Ok(format!("(if {} then (match json_text {} with Some j_ => (let {} := ({} ++ j_) in {}) | None => ({} None) end) else (let {} := ({} ++ {}) in {}))", c, t, wn, wn, rest_s, rk, wn, wn, t, rest_s))
             }
             Stmt::Macro(m) => {
                 let name = path_str(&m.mac.path);
@@ -1314,7 +1447,7 @@ fn find_fn<'a>(file: &'a File, t: &Target) -> Option<(&'a Signature, &'a Block, 
 fn translate(t: &Target, sig: &Signature, block: &Block, ret_tys: &HashMap<String, Ty>) -> R<(String, Ty)> {
     let mut cx = Cx { env: vec![], fresh: 0, calls: t.calls.iter().map(|(a, b)| (a.to_string(), b.to_string())).collect(),
                       call_ty: t.calls.iter().filter_map(|(a, b)| ret_tys.get(*b).map(|ty| (a.to_string(), ty.clone()))).collect(),
-                      renames: vec![], tuple_hint: vec![], ret_ty: String::new(), inline_k: false, muts: vec![], rebind_ok: false, writers: vec![], loop_state: vec![], fuel: t.fuel.to_string(), retk_stack: vec![] };
+                      renames: vec![], tuple_hint: vec![], ret_ty: String::new(), inline_k: false, muts: vec![], rebind_ok: false, writers: vec![], loop_state: vec![], fuel: t.fuel.to_string(), retk_stack: vec![], stage_top: None, stages: vec![] };
     cx.inline_k = quote::ToTokens::to_token_stream(block).to_string().contains("let mut ");
     let self_coq = match t.impl_self { Some("Side") => ("side", Ty::Side), Some("UserBounds") => ("ubound", Ty::UB), Some("UserBoundsList") => ("ublist", Ty::Other), Some("FastOpt") => ("gfopt", Ty::Other), Some("StreamOpt") => ("gsopt", Ty::Other), Some("ForwardBounds") => ("gfb", Ty::Other), _ => ("UNKNOWN", Ty::Other) };
     let mut rty = Ty::Other;
@@ -1370,8 +1503,13 @@ fn translate(t: &Target, sig: &Signature, block: &Block, ret_tys: &HashMap<Strin
         let inits = cx.writers.iter().map(|w| format!("let {} := ([] : bytes) in ", ident(w))).collect::<String>();
         cx.retk_stack.push(format!("(fun x => Ret (x, {}))", outs));
         let k = cx.retk();
+        if t.name == "cut_str" {
+            let r = block.stmts.as_ptr_range();
+            cx.stage_top = Some((format!("gen_{}", t.name), r.start as usize, r.end as usize, block.stmts.len()));
+        }
         let body = cx.stmts(&block.stmts, &k)?;
-        return Ok((format!("Definition gen_{}{} : rs ({} * bytes) :=\n  ({}{}).\n", t.name, params, cx.ret_ty, inits, body), rty));
+        let stages = if cx.stages.is_empty() { String::new() } else { format!("{}\n", cx.stages.join("\n")) };
+        return Ok((format!("{}Definition gen_{}{} : rs ({} * bytes) :=\n  ({}{}).\n", stages, t.name, params, cx.ret_ty, inits, body), rty));
     }
     if t.ret_muts && !cx.muts.is_empty() {
         cx.inline_k = true;
@@ -1402,6 +1540,12 @@ fn main() {
             let file = parse_file(&src).map_err(|e| format!("unsupported: the file does not parse: {}", e))?;
             let (sig, block, line) = find_fn(&file, t).ok_or(format!("missing: no `{}` in {}", t.func, t.file))?;
             for d in t.deps { if !okset.contains(d) { return Err(format!("unsupported: depends on `{}`, which was not translated", d)); } }
+            if t.name == "cut_str" {
+                // the expansion of write_maybe_as_json! is built into the translator: refuse the function if the macro is not the one it was written for
+                let mac = file.items.iter().find_map(|it| match it { Item::Macro(m) if m.ident.as_ref().map_or(false, |i| i == "write_maybe_as_json") => Some(m.mac.tokens.to_string().split_whitespace().collect::<String>()), _ => None });
+                if std::env::var("RS2COQ_SHOW_MACRO").is_ok() { eprintln!("{}", mac.clone().unwrap_or_default()); }
+                if mac.as_deref() != Some(WRITE_MAYBE_AS_JSON) { return Err("unsupported: the macro write_maybe_as_json! is not the one the translator expands".into()); }
+            }
             let (def, rty) = translate(t, sig, block, &ret_tys).map_err(|e| format!("unsupported: {}", e))?;
             ret_tys.insert(format!("gen_{}", t.name), rty);
             Ok((def, line))
